@@ -390,6 +390,88 @@ def check_value_universe(repo, rep, uni, facts):
     return extra
 
 
+def _id_keyed_uses(fnode):
+    """`id(x)` used as the key of a container (subscript, membership test,
+    .get/.setdefault/.pop argument) inside fnode, nested functions
+    included."""
+    out = []
+    for n in ast.walk(fnode):
+        if not (isinstance(n, ast.Call) and isinstance(n.func, ast.Name)
+                and n.func.id == 'id' and len(n.args) == 1):
+            continue
+        node = n
+        # a local bound to id(x): look at the uses of that local
+        p = getattr(n, '_parent', None)
+        names = set()
+        if isinstance(p, ast.Assign) and p.value is n:
+            names = {t.id for t in p.targets if isinstance(t, ast.Name)}
+        cands = [n]
+        if names:
+            cands += [x for x in ast.walk(fnode) if isinstance(x, ast.Name)
+                      and x.id in names and isinstance(x.ctx, ast.Load)]
+        for c in cands:
+            q = getattr(c, '_parent', None)
+            if isinstance(q, ast.Subscript) and q.slice is c:
+                out.append(c)
+            elif isinstance(q, ast.Compare) and c is q.left and any(
+                    isinstance(o, (ast.In, ast.NotIn)) for o in q.ops):
+                out.append(c)
+            elif isinstance(q, ast.Call) and isinstance(
+                    q.func, ast.Attribute) and q.func.attr in (
+                    'get', 'setdefault', 'pop', 'add') and q.args and \
+                    q.args[0] is c:
+                out.append(c)
+    return out
+
+
+def check_converters_keep_no_identity_cache(repo, rep):
+    """R10e: the converters do not remember converted values by the
+    *address* of the source object.  id() of a temporary is reused as soon
+    as it is freed (items produced on the fly by an iterator), so such a
+    cache hands out the conversion of an earlier, different value -- the
+    round trip then returns other data than was put in."""
+    ut = repo.module(UT)
+    roots = [ut.func('convert_input_data'), ut.func('convert_output_data')]
+    seen = {}
+    work = list(roots)
+    while work:
+        f = work.pop()
+        if f.key in seen:
+            continue
+        seen[f.key] = f
+        for c in model.calls_in(f.node):
+            d = repo.resolve(f.module, c.func, model.scope_locals(f))
+            t = repo.lookup(d) if d else None
+            if isinstance(t, model.FuncInfo) and t.module is ut:
+                work.append(t)
+    n = 0
+    for f in seen.values():
+        if f.parent_func is not None and f.parent_func.key in seen:
+            continue     # walked with its parent
+        uses = _id_keyed_uses(f.node)
+        n += 1
+        rep.ob('R10e', f.key + '/no-identity-cache', not uses,
+               '%s keeps converted values in a table keyed by id(<source '
+               'object>) (`%s`): the address of a freed temporary is '
+               'reused, so items generated on the fly (zip, enumerate, a '
+               'generator of lists/dicts) get the conversion of an earlier '
+               'item' % (f.qualname, model.norm(model.enclosing(
+                   uses[0], ast.stmt) or uses[0]).split('\n')[0][:80]
+                   if uses else ''),
+               loc=ut.loc(uses[0]) if uses else ut.loc(f.node),
+               construct=model.norm(uses[0]) if uses else '')
+    # positive control
+    from sa.rules import c09
+    m = c09.load_fixture(repo, 'c10_fixture.py')
+    flagged = {q for q, f in m.functions.items()
+               if f.parent_func is None and _id_keyed_uses(f.node)}
+    rep.ob('R10e', 'fixtures/c10_fixture.py/positive-control',
+           flagged == {'bad_memo_by_id', 'bad_memo_closure'},
+           'positive control: expected the two bad_* functions flagged and '
+           'ok_identity_test silent; flagged %s' % sorted(flagged))
+    return n
+
+
 def run(repo, rep):
     rep.rule('R10a', 'FINALISER-SHAPES: for every container shape and every '
              'combination of convertTuplesToLists x convertSetsToLists, '
@@ -422,5 +504,8 @@ def run(repo, rep):
     n, nshapes = check_finaliser(repo, rep, facts, depth, extra)
     nin = check_input(repo, rep, facts, 2)
     check_always_finalised(repo, rep, uni)
+    rep.rule('R10e', 'NO-IDENTITY-CACHE: the converters (and what they call) '
+             'keep no table keyed by id() of a source object')
+    check_converters_keep_no_identity_cache(repo, rep)
     rep.count(shapes=nshapes, option_combinations=len(OPTS),
               finaliser_obligations=n, input_obligations=nin, depth=depth)
